@@ -34,6 +34,13 @@ void harness_case(Dec &d, Case &c) {
     BuildOpts o; o.maxChains = 5; if (d.pick(16) == 0) o.maxChains = 8;
     unsigned mm = d.pick(20); // 0..5 none, 6..13 one, 14..16 two or three
     Sig s = buildConsistent(ch, o);
+    // metadata records with sub-elements in less usual (legal) encodings: an unknown non-critical child with a 16-bit tag, header flags on a child that needs the four-octet header
+    // (a value of more than 255 octets). The record stays well padded and the signature consistent: the chain hashes are recomputed over the octets as written.
+    if (d.pick(3) == 0) { bool any = false; for (auto &chn : s.chains) for (auto &l : chn.links) { if (l.kind != SIB_META) continue; std::vector<Tlv> kids, body; if (!decodeList(l.sib.data(), l.sib.size(), kids)) continue; for (auto &k : kids) if (k.tag != 0x1e) body.push_back(k);
+            unsigned w = d.pick(3); if (w == 0 || w == 2) { Tlv x = Tlv::raw(0x20 + d.pick(0x1fdf), d.bytes(d.pick(5)), true, d.flag()); body.push_back(x); }
+            if (w >= 1) { std::string big(256 + d.pick(60), 'n'); bool done = false; for (auto &k : body) if (k.tag == 0x02 && !done) { k = Tlv::str(0x02, big); (d.flag() ? k.F : k.N) = true; done = true; } if (!done) { Tlv m = Tlv::str(0x02, big); (d.flag() ? m.F : m.N) = true; body.insert(body.begin() + (body.empty() ? 0 : 1), m); } }
+            Bytes bb; for (auto &k : body) k.encode(bb); Tlv pad = Tlv::raw(0x1e, (bb.size() % 2) ? Bytes{1} : Bytes{1, 1}, true, true); Bytes out = pad.enc(); out.insert(out.end(), bb.begin(), bb.end()); l.sib = out; any = true; }
+        if (any) { relink(s); c.cls("metadata:child-with-16-bit-header-and-flags"); } }
     std::string muts; int nm = mm < 6 ? 0 : (mm < 14 ? 1 : (mm < 18 ? 2 : 3)); int applied = 0;
     for (int i = 0; i < nm; i++) { for (int tries = 0; tries < 6; tries++) { int k = (int)(d.raw(2) % SM_COUNT); std::string note; Sig bak = s; if (applySigMut(s, k, d, note)) { muts += std::string(kSigMutName[k]) + (note.empty() ? "" : "(" + note + ")") + " "; c.cls(std::string("mut:") + kSigMutName[k]); applied++; break; } s = bak; } }
     Verdict v = evaluate(s); Bytes enc = s.enc(); if (enc.empty() || enc.size() > 65000) { c.skip("signature too large to encode"); return; }
